@@ -530,11 +530,16 @@ def _bits(z, width):
 
 
 class SymInt:
-    __slots__ = ("z",)
+    """z: z3 Int term.  mask: None, or a non-negative int m such that the value is known to satisfy 0 <= v and
+    v & ~m == 0 (an over-approximation of the bits that may be set) - lets `a | b` and `a & b` of bit-disjoint /
+    byte-sized operands stay linear instead of being expanded bit by bit."""
+
+    __slots__ = ("z", "mask")
     BITWIDTH = 32
 
-    def __init__(self, z):
+    def __init__(self, z, mask=None):
         self.z = z
+        self.mask = mask
 
     # arithmetic ---------------------------------------------------------------------------------------------
     def __add__(self, o):
@@ -663,9 +668,20 @@ class SymInt:
         if _isinstance(o, bool):
             o = _int(o)
         if _isinstance(o, _int):
-            return SymInt(_and_const(self.z, o))
+            if self.mask is not None and o >= 0:
+                m = self.mask & o
+                if m == 0:
+                    return 0
+                if m == self.mask:
+                    return self
+                return SymInt(_and_const(self.z, m), m)
+            return SymInt(_and_const(self.z, o), o if o >= 0 else None)
         if _isinstance(o, SymInt):
+            if self.mask is not None and o.mask is not None and self.mask & o.mask == 0:
+                return 0
             w = SymInt.BITWIDTH
+            if self.mask is not None and o.mask is not None:
+                w = builtins.max(1, (self.mask & o.mask).bit_length())
             a, b = _bits(self.z, w), _bits(o.z, w)
             Ctx.cur.notes.append("sym&sym expanded over %d bits" % w)
             return SymInt(z3.Sum([a[i] * b[i] * (1 << i) for i in range(w)]))
@@ -673,10 +689,21 @@ class SymInt:
 
     __rand__ = __and__
 
+    def _omask(self, o):
+        if _isinstance(o, SymInt):
+            return o.mask
+        if _isinstance(o, _int) and o >= 0:
+            return o
+        return None
+
     def __or__(self, o):
         # x | m == x + m - (x & m)
         if _isinstance(o, (_int, SymInt)):
-            return self + o - (self & o)
+            om = self._omask(o)
+            r = self + o - (self & o)
+            if _isinstance(r, SymInt) and self.mask is not None and om is not None:
+                r.mask = self.mask | om
+            return r
         return NotImplemented
 
     __ror__ = __or__
@@ -694,7 +721,7 @@ class SymInt:
     def __lshift__(self, o):
         if _isinstance(o, SymInt):
             o = o.__index__()
-        return SymInt(self.z * (1 << o))
+        return SymInt(self.z * (1 << o), None if self.mask is None else self.mask << o)
 
     def __rlshift__(self, o):
         return o << self.__index__()
@@ -702,7 +729,7 @@ class SymInt:
     def __rshift__(self, o):
         if _isinstance(o, SymInt):
             o = o.__index__()
-        return SymInt(self.z / (1 << o))
+        return SymInt(self.z / (1 << o), None if self.mask is None else self.mask >> o)
 
     def __rrshift__(self, o):
         return o >> self.__index__()
